@@ -20,7 +20,7 @@ STREAM_FES = ("pandas", "numpy", "netcdf_obj", "netcdf_path", "xarray_obj", "xar
 
 
 def generate(rng, tier="quick"):
-    tbl = wl.gen_table(rng, max_n=24 if tier == "quick" else 40)
+    tbl = wl.gen_table(rng, max_n=24 if tier == "quick" else 40, no_time_p=0.06)
     if rng.chance(0.12):
         tbl["xr_time"] = "var"
     cfg = wl.gen_config(rng, tbl, max_ctx=4, max_tests=3)
@@ -131,6 +131,8 @@ def execute(scn):
         bump("context_with_region")
     if tbl.get("xr_time") == "var":
         bump("time_is_data_variable")
+    if tbl.get("no_time"):
+        bump("source_without_time_axis")
     reps = rp.build_replicas(scn, shared)
     sch = rp.run_replicas(scn, reps)
     if sch.timeout:
